@@ -465,8 +465,24 @@ func (e *Engine) wtRef(s *State, r Term) Term {
 		return r
 	}
 	s.wt[r.S] = true
-	e.assume(s, or(app("<=", "Bool", r, refT(0)), sel(s.alloc, r, "Bool")))
+	al := s.alloc
+	if e.entryRead(r) {
+		// a reference read from the ENTRY version of a heap array was allocated when the function was entered (not
+		// merely "by now"): it cannot be an object this execution allocated later
+		al = Term{S: "alloc!0", Sort: "(Array Int Bool)"}
+	}
+	e.assume(s, or(app("<=", "Bool", r, refT(0)), sel(al, r, "Bool")))
 	return r
+}
+
+var entryReadRe = regexp.MustCompile(`^\(select (\(select )?[^ ()]+!e0 `)
+
+func (e *Engine) entryRead(r Term) bool {
+	t := r
+	if d, ok := e.defOf[r.S]; ok {
+		t = d
+	}
+	return entryReadRe.MatchString(t.S)
 }
 
 func elemSort(t types.Type) string {
